@@ -364,7 +364,7 @@ example :
    ((C18_rate_undefined 2 5 (5/2) 30 nv_C18_rate_undefined.1 nv_C18_rate_undefined.2 ⟨1, 1, 2, 1⟩ ⟨0, 1, 3, 0⟩).2 rfl).2.1⟩
 
 /-! ### quarantine: a 4 x 6 raster with two areas (ids 2 and 5) and cells outside every area;
-    directions N, S, E enabled (W disabled); integer resolutions 10 (ew) and 30 (ns) -/
+    directions N, S, E enabled (W disabled); resolutions 10 (ew) and 30 (ns) in `nvQ`, 5/4 and 11/8 in `nvQf` -/
 
 def nvAreas : IRaster := ⟨4, 6, [0,2,2,2,5,5, 0,2,2,2,5,5, 0,2,2,2,5,5, 0,0,0,0,5,5]⟩
 /-- infected cells (1,2) in area 2 and (2,4) in area 5 -/
@@ -394,22 +394,33 @@ example := C18_escape_iff nvAreas nvInfOut 3 nvQ nv_C18_escape_iff.1 (allCells 4
 example : specEscaped nvInfIn nvAreas (allCells 4 6) = false ∧ specEscaped nvInfOut nvAreas (allCells 4 6) = true := by
   decide
 
+/-- NON-integer resolutions 5/4 (ew) and 11/8 (ns): cell (1,2) is 11/8 from the north and south
+    sides of area 2 and 5/4 from its east side; cell (2,4) is 22/8, 11/8 and 5/4 from the sides of
+    area 5. The nearest pair is ((1,2), E) at 5/4 (first of two at that distance); the report is
+    (1, E). A rounded running minimum would have kept N (11/8 stored as 1, 5/4 not below 1). -/
+def nvQf : Quarantine := Quarantine.make nvAreas (5/4) (11/8) 3 nvDirs
+
 theorem nv_C18_nearest :
-    (0 : Int) ≤ 30 ∧ (0 : Int) ≤ 10 ∧ nvAreas.rows * 30 < intMax ∧ nvAreas.cols * 10 < intMax ∧
-    QFrom nvQ nvAreas 3 ∧ nvQ.ns = ((30 : Int) : Rat) ∧ nvQ.ew = ((10 : Int) : Rat) ∧
-    (∃ d, nvQ.dirs.enabled d = true) ∧
+    QFrom nvQf nvAreas 3 ∧ 0 ≤ nvQf.ns ∧ 0 ≤ nvQf.ew ∧
+    (nvAreas.rows : Rat) * nvQf.ns < (dblMax : Rat) ∧ (nvAreas.cols : Rat) * nvQf.ew < (dblMax : Rat) ∧
+    (∃ d, nvQf.dirs.enabled d = true) ∧
     (∀ c ∈ allCells 4 6, InRange nvAreas.rows nvAreas.cols c) ∧ (∀ c ∈ allCells 4 6, 0 ≤ nvAreas.at c.1 c.2) ∧
     1 < 3 ∧ (¬ ∃ c ∈ allCells 4 6, nvInfIn.at c.1 c.2 ≠ 0 ∧ nvAreas.at c.1 c.2 = 0) ∧
     (∃ c ∈ allCells 4 6, nvInfIn.at c.1 c.2 ≠ 0) :=
-  ⟨by decide, by decide, by decide, by decide, C18_qfrom_make _ _ _ _ _, rfl, rfl, ⟨.E, rfl⟩,
+  ⟨C18_qfrom_make _ _ _ _ _, by decide +kernel, by decide +kernel, by decide +kernel, by decide +kernel, ⟨.E, rfl⟩,
    fun _ hc => mem_allCells.mp hc, by decide, by decide, by decide, by decide⟩
 example :=
   have h := nv_C18_nearest
-  C18_nearest nvAreas nvInfIn 30 10 h.1 h.2.1 h.2.2.1 h.2.2.2.1 3 nvQ h.2.2.2.2.1 h.2.2.2.2.2.1 h.2.2.2.2.2.2.1
-    h.2.2.2.2.2.2.2.1 (allCells 4 6) h.2.2.2.2.2.2.2.2.1 h.2.2.2.2.2.2.2.2.2.1 1 h.2.2.2.2.2.2.2.2.2.2.1
-    h.2.2.2.2.2.2.2.2.2.2.2.1 h.2.2.2.2.2.2.2.2.2.2.2.2
-/-- the report is (10, E): cell (1,2) is 10 from the east side of area 2 -/
-example : nearestOK nvInfIn nvAreas (allCells 4 6) nvDirs 30 10 10 .E = true := by decide
+  C18_nearest nvAreas nvInfIn 3 nvQf h.1 h.2.1 h.2.2.1 h.2.2.2.1 h.2.2.2.2.1 h.2.2.2.2.2.1
+    (allCells 4 6) h.2.2.2.2.2.2.1 h.2.2.2.2.2.2.2.1 1 h.2.2.2.2.2.2.2.2.1
+    h.2.2.2.2.2.2.2.2.2.1 h.2.2.2.2.2.2.2.2.2.2
+/-- the candidates in scan order, and the report (1, E) -/
+example : nearestCandidates nvInfIn nvAreas (allCells 4 6) nvDirs (11/8) (5/4) =
+    [(11/8, .N), (11/8, .S), (5/4, .E), (22/8, .N), (11/8, .S), (5/4, .E)] := by decide +kernel
+example : ((nvQf.action (allCells 4 6) nvInfIn nvAreas 1).toOption.map (·.infos)) =
+    some [EscapeInfo.init, ⟨false, .val 1, .E⟩, EscapeInfo.init] := by decide +kernel
+example : nearestOK nvInfIn nvAreas (allCells 4 6) nvDirs (11/8) (5/4) 1 .E = true ∧
+    nearestOK nvInfIn nvAreas (allCells 4 6) nvDirs (11/8) (5/4) 1 .N = false := by decide +kernel
 
 /-! ### sum and area -/
 
